@@ -43,7 +43,8 @@ RULE = ("a runner configuration = 0-3 unpacked parameters of lengths 1-5 (lists 
         "the matching combinations. "
         "Half of the file-backed histories use names relative to a fresh working directory (partial-results folder not yet existing, given or default). "
         "Grids read from a config file with a validation spec (unpacked parameters of length 1 included), runners that compute their grid in _on_simulate_start, and the parallel entry point driven through an in-process stand-in for the ipyparallel view (blocking / deferred collection, wait_parallel_simulation() called repeatedly, aborted first run). "
-        "The results object of the previous run is held across the next one. ")
+        "The results object of the previous run is held across the next one. "
+        "The probe iteration also returns a vector-valued sum from a refilled buffer; a third of the file histories end with set_results_filename(None) and another simulate(). ")
 ASSUMPTIONS = ["the do-while behaviour (first repetition unconditional) is the "
                "documented one", "serial simulate() only (ipyparallel absent)"]
 
@@ -143,6 +144,11 @@ class ProbeRunner(SimulationRunner):
         sr.add_new_result("cnt", Result.SUMTYPE, 1)
         sr.add_new_result("ratio", Result.RATIOTYPE, value_fn(self.spec, vidx, uid), 4)
         sr.add_result(Result.create("last", Result.MISCTYPE, uid, accumulate_values=True))
+        # a vector-valued sum reported from a buffer the iteration refills every time
+        if not hasattr(self, "_vecbuf"):
+            self._vecbuf = np.zeros(2, dtype=np.int64)
+        self._vecbuf[:] = (uid, 1)
+        sr.add_new_result("vec", Result.SUMTYPE, self._vecbuf)
         return sr
 
     def _keep_going(self, current_params, current_sim_results, current_rep):
@@ -362,6 +368,12 @@ def check_run(ctx, runner, s, tag, label, uid0, simulate=None):
                detail=lambda: {**tag, "run": label, "variation": v,
                                "cnt": res["cnt"][v].get_result(), "want_reps": w["reps"],
                                "ratio": res["ratio"][v].get_result(), "want_ratio": w["ratio"]})
+        if "vec" in res.get_result_names():
+            vec = np.asarray(res["vec"][v].get_result())
+            ctx.ev("stored-results", vec.shape == (2,) and int(vec[0]) == sum(w["ids"]) and
+                   int(vec[1]) == w["reps"], cls="vector-valued-sum",
+                   detail=lambda: {**tag, "run": label, "variation": v, "got": vec,
+                                   "want": [sum(w["ids"]), w["reps"]]})
         sk = res["num_skipped_reps"][v].get_result() if "num_skipped_reps" in \
             res.get_result_names() else None
         ctx.ev("skip-counts", sk == w["skipped"], cls=s.skip_kind,
@@ -685,6 +697,22 @@ def _files_body(ctx, rng, idx, s, variations, nvar, delete, wd, relative):
                 disk = {}
         ctx.sample("files", {**tag, "ops": list(ops)})
         ctx.sig("files", delete, single, len(disk) == nvar, s.rep_max >= 500, step)
+    if idx % 3 == 0:
+        # the user switches file storage off again: the next simulate() has nothing
+        # to do with what is on disk and runs every combination afresh
+        runner.set_results_filename(None)
+        n0 = len(runner.trace)
+        want_trace, want, _ = model(s, variations, runner.next_uid)
+        try:
+            runner.simulate()
+        except Exception as e:          # noqa: BLE001
+            ctx.ev("call-trace", False, cls="files:after-filename=None:raised:" + type(e).__name__,
+                   detail={**tag, "ops": list(ops)})
+            return
+        ctx.ev("call-trace", runner.trace[n0:] == want_trace,
+               cls="files:after-filename=None:order-or-count",
+               detail={**tag, "ops": list(ops), "got_len": len(runner.trace) - n0,
+                       "want_len": len(want_trace)})
     shutil.rmtree(wd, ignore_errors=True)
 
 
